@@ -436,7 +436,7 @@ def smallest_cap(algo, K, n, k=1):
 # rewards
 
 OPEN_FAMILIES = ["neg", "const", "zero", "tied", "noisy", "large", "large_off", "unit", "drift", "altext",
-                 "incr", "decr", "best_first", "best_last", "twoval", "quant5", "bern", "negbern", "nonpos3", "hugeneg", "intnormal", "intwide", "int3wide", "records", "negzero"]
+                 "incr", "decr", "best_first", "best_last", "twoval", "quant5", "bern", "negbern", "nonpos3", "hugeneg", "intnormal", "intwide", "int3wide", "records", "negzero", "alt010"]
 HUGE_FAMILIES = ["huge"]
 CLOSED_FAMILIES = ["cl_hump", "cl_sine", "cl_garland", "cl_step", "cl_negdist"]
 
@@ -493,6 +493,10 @@ def open_rewards(fam, seed, T):
         r = -rng.random(T) - 0.5
         r[-1] = 0.25
         return r
+    if fam == "alt010":
+        # 0, -10, 0, -10, ...: one child of every cell is rewarded, its sibling punished by far more than any
+        # confidence width - the tree bandits grow a single path ('caterpillar'), one level every other round
+        return np.where(np.arange(T) % 2 == 0, 0.0, -10.0)
     if fam == "negzero":
         # all negative except a few exact zeros (+0.0 / -0.0): the best value coincides with the default reward of a
         # cell that has not been evaluated yet
